@@ -222,6 +222,11 @@ class Concretiser(object):
             for c in self.ext[e['ext']]:
                 if c and mn <= len(c) <= mx and c == c.strip():
                     return c
+        if e.get('regex'):
+            import re as _re
+            m = _re.match(r'^\[0-9\]\{(\d+)\}$', e['regex'])
+            if m and mn <= int(m.group(1)) <= mx:
+                return '1' * int(m.group(1))          # the only pattern the shipped maps use: a fixed number of digits
         if self.maxlen and not e.get('regex'):
             if t in ('AN', 'ID'):
                 return 'A' * max(mn, min(mx, 60))
@@ -230,8 +235,17 @@ class Concretiser(object):
             if t == 'TM':
                 return '12003075' if mx >= 8 else ('120030' if mx >= 6 else '1200')
             if t == 'R':
+                # alternately the longest value and the shortest signed fraction (minus sign and decimal point do not count towards the length)
+                self._r_alt = getattr(self, '_r_alt', 0) + 1
+                if self._r_alt % 2 == 0 and mn <= 1:
+                    return '-.5'
                 d = max(mn, min(mx, 15))
                 return '1' * (d - 1) + '.5' if d >= 2 else '1'
+            if t[0] == 'N' and len(t) > 1 and t[1:].isdigit():
+                # N0..N9: implied decimal; a minus sign does not count towards the length either
+                self._n_alt = getattr(self, '_n_alt', 0) + 1
+                if self._n_alt % 2 == 0:
+                    return '-' + '1' * max(mn, min(mx, 15))
             if t[0] == 'N':
                 return '1' * max(mn, min(mx, 15))
         if t == 'AN':
